@@ -166,3 +166,78 @@ register = REG.add(Contract(
     loop_ghost={1: [], 2: ["registry_changed", "cache_dropped"], 3: ["registry_changed"], 4: ["registry_changed"], 5: [], 6: [], 7: []},
     local_sorts={"deregistered": "V", "already_seen": "V"},
 ))
+
+
+# --------------------------------------------------------------------------------------
+# DataDirectory._folder_matches: which stored folder may serve a key
+# --------------------------------------------------------------------------------------
+FF = "strax/storage/files.py"
+PARSED = z3.Function("fn:parse_folder_name", V, V)
+
+
+def _parse_hook(eng, args, kw, st, fr, k, node):
+    fr.on_raise(Exc("InvalidFolderNameFormat"), st)
+    p = PARSED(eng.to_v(args[-1]))
+    gi = GETITEM
+    return k((Opq(gi(p, int2v(z3.IntVal(0)))), Opq(gi(p, int2v(z3.IntVal(1)))), Opq(gi(p, int2v(z3.IntVal(2))))), st)
+
+
+def _matches_hook(eng, args, kw, st, fr, k, node):
+    vs = [eng.to_v(x) for x in args[-4:]]
+    return k(z3.Function("fn:_matches", V, V, V, V, z3.BoolSort())(*vs), st)
+
+
+def _fm_ens(S, a, r):
+    p = PARSED(a.fn)
+    run, dt, h = (GETITEM(p, int2v(z3.IntVal(j))) for j in range(3))
+    fuzzy = S.Or(S.truthy(a.fuzzy_for), S.truthy(a.fuzzy_for_options))
+    accepted = S.truthy(r) if not z3.is_bool(r) else r
+    lineage_ok = z3.Function("fn:_matches", V, V, V, V, z3.BoolSort())(
+        S.getitem(S.call("method:get_metadata", S.getitem(S.attr(a.self, "backends"), 0), a.fn), "lineage"), S.attr(a.key, "lineage"),
+        a.fuzzy_for, a.fuzzy_for_options)
+    return [("a folder is accepted only for its own data type and - unless names are to be ignored - its own run",
+             S.Implies(accepted, S.And(S.eq(dt, S.attr(a.key, "data_type")),
+                                       S.Or(a.ignore_name, S.eq(run, S.attr(a.key, "_run_id")))))),
+            ("without fuzzy matching only under the identical lineage hash",
+             S.Implies(S.And(accepted, S.Not(fuzzy)), S.eq(h, S.attr(a.key, "lineage_hash")))),
+            ("what is handed back is the folder's run id", S.Implies(accepted, S.eq(S.v(r) if not z3.is_bool(r) else run, run)))]
+
+
+folder_matches = REG.add(Contract(
+    FF, "DataDirectory._folder_matches",
+    params=dict(self="V", fn="V", key="V", fuzzy_for="V", fuzzy_for_options="V", ignore_name="bool"),
+    ensures=_fm_ens, raises={"Any": lambda S, a: S.true},
+    calls={"self._parse_folder_name": _parse_hook, "self._matches": _matches_hook, ".get_metadata": Abstract(pure=True, may_raise=["Any"])},
+))
+
+
+# --------------------------------------------------------------------------------------
+# Context.__add_lineage_to_plugin (child plugins): only tracked options of the child, plus name / version of the parents
+# --------------------------------------------------------------------------------------
+def _configs_store(eng, st, key, value, node):
+    plugin = st.env["plugin"].t
+    if "option_name" in st.env and key is st.env["option_name"]:
+        takes = ATTR("takes_config")(plugin)
+        eng.oblige("lineage", "an option enters a child plugin's lineage only if its Option is tracked (a child option that is not tracked "
+                              "never enters a key)", st, truthy(ATTR("track")(GETITEM(takes, eng.to_v(key)))), node)
+        eng.oblige("lineage", "with the value the plugin was configured with", st, eng.to_v(value) == eng.to_v(st.env["v"]), node)
+    return st
+
+
+add_lineage_child = REG.add(Contract(
+    FC, "Context.__add_lineage_to_plugin", variant="child plugin",
+    params=dict(self="V", run_id="V", plugin="V"),
+    requires=lambda S, a: [("a child plugin", S.truthy(S.attr(a.plugin, "child_plugin")))],
+    ensures=lambda S, a, r: [("the plugin's own lineage entry is set", a.ghost.own_entry)],
+    raises={},
+    ghost={"own_entry": z3.BoolVal(False), "merged": z3.Const("nothing_merged", V)},
+    store_hooks={"attr:lineage": lambda eng, st, obj, v, node: St(st.env, st.heap, st.pc, {**st.ghost, "own_entry": z3.BoolVal(True)}),
+                 "configs": _configs_store},
+    calls={".update": _lineage_update, ".version": Abstract(pure=True)},
+    loops={1: Loop(lambda S, a: []), 2: Loop(lambda S, a: []),
+           3: Loop(lambda S, a: [("the own entry stays", a.ghost.own_entry)], body_ensures=lambda S, a: [
+               ("the lineage of every dependency is merged in",
+                S.eq(a.ghost.merged, S.attr(S.getitem(S.attr(a.plugin, "deps"), a.d_depends), "lineage")))])},
+    loop_ghost={1: [], 2: [], 3: ["merged"]},
+    local_sorts={"configs": "V"},
+))
